@@ -363,7 +363,9 @@ def run(ctx, n, prefix="C04", only=None, patterns=None):
     for _ in range(n):
         name, f, gen, kw = table[rng.randrange(len(table))]
         pattern = rng.choice(patterns or SHAPES)
-        k = 1 if pattern == "1" else rng.randint(2, 3)
+        if patterns is None and rng.random() < 0.04:
+            pattern = "K"            # 64 and more positions: the size-dependent branches of the numeric kernels (det / adjugate / inv)
+        k = 1 if pattern == "1" else rng.choice([64, 70]) if pattern == "K" else rng.randint(2, 3)
         m = rng.randint(2, 3)
         try:
             tuples = [gen() for _ in range(k * (m if pattern in ("mk", "mk1") else 1))]
@@ -373,7 +375,7 @@ def run(ctx, n, prefix="C04", only=None, patterns=None):
         if pattern in ("mixed", "mk", "mk1") and (nargs < 2 or kw.get("nomix")):
             pattern = "k"
             tuples = tuples[:k]
-        shape = {"k": (k,), "1": (1,), "k1": (k, 1), "1k": (1, k), "mixed": (k,), "mk": (m, k), "mk1": (m, k)}[pattern]
+        shape = {"k": (k,), "K": (k,), "1": (1,), "k1": (k, 1), "1k": (1, k), "mixed": (k,), "mk": (m, k), "mk1": (m, k)}[pattern]
         single_pos = rng.randrange(nargs) if pattern in ("mixed", "mk", "mk1") else None
         try:
             colls = []
